@@ -59,6 +59,7 @@ type InputRec struct {
 	Name  string `json:"name"`
 	Label string `json:"label"`
 	W     uint8  `json:"w"`
+	Env   bool   `json:"env,omitempty"` // created by the engine's environment model (time.Now), not by a vf* call: no native vector slot
 }
 
 type Observation struct {
